@@ -95,6 +95,9 @@ class Canon(ast.NodeTransformer):
         if isinstance(node.op, ast.Add) and isinstance(node.left, ast.Tuple):
             extra = list(node.right.elts) if isinstance(node.right, ast.Tuple) else [ast.Starred(value=node.right, ctx=ast.Load())]
             return ast.Tuple(elts=list(node.left.elts) + extra, ctx=ast.Load())
+        # X + (a, b)  ->  (*X, a, b): only a tuple can be added to a tuple display
+        if isinstance(node.op, ast.Add) and isinstance(node.right, ast.Tuple) and not isinstance(node.left, ast.Tuple):
+            return ast.Tuple(elts=[ast.Starred(value=node.left, ctx=ast.Load())] + list(node.right.elts), ctx=ast.Load())
         # set difference: A - (B | C)  ->  A - B - C
         if isinstance(node.op, ast.Sub) and isinstance(node.right, ast.BinOp) and isinstance(node.right.op, ast.BitOr) \
                 and any(isinstance(x, ast.Set) or (isinstance(x, ast.Call) and isinstance(x.func, ast.Name) and x.func.id in ("set", "frozenset"))
